@@ -655,7 +655,9 @@ impl<'a> GeneratorState<'a> {
                             self.asm(BNE, &ExprType::Label(ifend_label.clone()), 0, false)?;
                             self.asm(INC, expr_type, pos, true)?;
                             self.label(&ifend_label)?;
-                            self.flags = FlagsState::Absolute(variable.clone(), *eight_bits, *offset);
+                            // Z is that of the whole value, but N is that of whichever byte was
+                            // incremented last: not a usable description of the variable
+                            self.flags = FlagsState::Unknown;
                             self.carry_flag_ok = false;
                         } else {
 // Decrement :
@@ -721,7 +723,7 @@ impl<'a> GeneratorState<'a> {
                             self.asm(BNE, &ExprType::Label(ifend_label.clone()), 0, false)?;
                             self.asm(INC, expr_type, pos, true)?;
                             self.label(&ifend_label)?;
-                            self.flags = FlagsState::AbsoluteX(variable.clone());
+                            self.flags = FlagsState::Unknown;
                             self.carry_flag_ok = false;
                         } else {
 // Decrement :
